@@ -112,10 +112,19 @@ func contentOf(s *storage.JSONFileStorage) string {
 
 func load() (*storage.JSONFileStorage, error) { return storage.NewJSONFileStorage(path) }
 
+// staleTmp is a 60 kB prefix of a valid larger state file, as a killed writer leaves it.
+var staleTmp = func() []byte {
+	b := []byte(`{"routers":{`)
+	for len(b) < 60000 {
+		b = append(b, []byte(`"fd00::1":{"address":{"ip":"fd00::1"},"universe":"stale"},`)...)
+	}
+	return b
+}()
+
 func TestC18(t *testing.T) {
 	env := kit.GetEnv()
 	rep := kit.NewReport("C18", env)
-	rep.Rule = "states: {0,1,2,5} routers x {0,1,2,5} mappings x 3 field-value flavours (empty, unicode, 4 kB, JSON-hostile strings; nil/present public info; offline flag; used/unused) plus 50 and 200 entries; previous file: absent, or the complete file of another state; for each (previous, new) pair the real Stop() is run once to log its file-system steps, then re-run for EVERY crash point: before every step and at every byte offset of every write (states of 50/200 entries, and in the quick tier all writes above 6 kB: every offset in the first and last 1 kB of each write and every 97th in between); after each crash the real NewJSONFileStorage loads the image; plus save->load round trip of every state; non-trivial = crash points strictly inside a write or between steps of the save; distinct = distinct (previous, new, crash point)"
+	rep.Rule = "states: {0,1,2,5} routers x {0,1,2,5} mappings x 3 field-value flavours (empty, unicode, 4 kB, JSON-hostile strings; nil/present public info; offline flag; used/unused) plus 50 and 200 entries; previous file: absent, or the complete file of another state, optionally with a long partially written temporary file left by an earlier crashed shutdown; for each (previous, new) pair the real Stop() is run once to log its file-system steps, then re-run for EVERY crash point: before every step and at every byte offset of every write (states of 50/200 entries, and in the quick tier all writes above 6 kB: every offset in the first and last 1 kB of each write and every 97th in between); after each crash the real NewJSONFileStorage loads the image; plus save->load round trip of every state; non-trivial = crash points strictly inside a write or between steps of the save; distinct = distinct (previous, new, crash point)"
 	rep.Assumptions = []string{
 		"crash model = process kill: completed file-system steps persist, an in-progress write persists an arbitrary prefix (the statement's model); power-loss reordering is out of scope",
 		"the storage package is compiled with its os import rewritten to the vos shim; if it uses an os API the shim lacks, the harness fails to build (exit 2) instead of passing",
@@ -143,8 +152,11 @@ func TestC18(t *testing.T) {
 	type prev struct {
 		name string
 		sp   *spec
+		// staleTmp: a long, partially written "<state>.tmp" left behind by an
+		// earlier crashed shutdown is present next to the state file.
+		staleTmp bool
 	}
-	prevs := []prev{{"no-file", nil}, {"prev-r1-m1", &spec{"p", 1, 1, 2}}, {"prev-r5-m2", &spec{"p", 5, 2, 1}}}
+	prevs := []prev{{"no-file", nil, false}, {"prev-r1-m1", &spec{"p", 1, 1, 2}, false}, {"prev-r5-m2", &spec{"p", 5, 2, 1}, false}, {"prev-r1-m1+stale-tmp", &spec{"p", 1, 1, 2}, true}}
 
 	run := func(sp spec, pv prev, sparse bool) {
 		caseNo++
@@ -177,6 +189,11 @@ func TestC18(t *testing.T) {
 			vos.Reset()
 			if prevBytes != nil {
 				vos.SetFile(path, prevBytes)
+			}
+			if pv.staleTmp {
+				vos.SetFile(path+".tmp", staleTmp)
+				vos.SetFile(path+".new", staleTmp)
+				vos.SetFile(path+"~", staleTmp)
 			}
 			s, err := load()
 			if err != nil {
